@@ -2309,6 +2309,12 @@ evhttp_parse_headers_(struct evhttp_request *req, struct evbuffer* buffer)
 		skey = strsep(&svalue, ":");
 		if (svalue == NULL)
 			goto error;
+		/* no whitespace is allowed between the field name and the
+		 * colon (RFC 9112, 5.1): parties that disagree about what
+		 * such a line means can be played off against each other */
+		if (svalue - skey >= 2 &&
+		    (svalue[-2] == ' ' || svalue[-2] == '\t'))
+			goto error;
 
 		svalue += strspn(svalue, " ");
 		evutil_rtrim_lws_(svalue);
